@@ -4,6 +4,7 @@ import io
 from hypothesis import strategies as st
 
 from vlib import harness, refvbs
+from vlib.strat import uniform
 from vlib.harness import exc_sig
 from cardutil import mciipm
 from cardutil import config as cfgmod
@@ -155,7 +156,7 @@ BOUNDARY = [1, 2, 3, 4, 5, 1003, 1004, 1007, 1008, 1009, 1011, 1012, 1013, 1016,
 
 def spec_strategy(maxlen=6000, max_records=60):
     bl = [b for b in BOUNDARY if b <= maxlen] + [maxlen]
-    length = st.one_of(st.sampled_from(bl), st.integers(1, maxlen), st.integers(1, min(64, maxlen)))
+    length = st.one_of(st.sampled_from(bl), uniform(1, maxlen), uniform(1, min(64, maxlen)))
     rec = st.tuples(length, st.sampled_from(['pos', 'zero', 'fill', 'prefix', 'rand']), st.binary(min_size=1, max_size=9))
     return st.tuples(st.lists(rec, min_size=1, max_size=max_records), st.booleans())
 
